@@ -5,39 +5,85 @@ from vlib import Job
 LABEL = 'bounded: trees of depth <= 2 (<= %d keys) before and after the operation; leaf/inner slots %d/%d'
 
 
-def cfg_jobs(multi, binsearch, greater, tier, ls=4, is_=4):
+def cfg_jobs(multi, binsearch, greater, tier, ls=4, is_=4, reduced=False):
     js = []
     cname = 'multiset' if multi else 'set'
     tag = '%s_%s_%s' % (cname, 'bin' if binsearch else 'lin', 'gt' if greater else 'lt')
     sd = ['LS=%d' % ls, 'IS=%d' % is_, 'BIN=%d' % binsearch, 'MULTI=%d' % multi, 'MAP=0', 'GREATER=%d' % greater]
     BTF = r'tlx::BTree<unsigned char, unsigned char, .*>::'
-    def J(name, op, enforce, fns, extra=(), timeout=1800, cbmc_flags=(), **kw):
+    def J(name, op, enforce, fns, extra=(), timeout=1800, cbmc_flags=(), tier=tier, mem_gb=5, **kw):
         # the full set of CBMC 6 standard checks (signed overflow, pointer primitives, ...) makes these jobs run for > 20 min;
         # pointer and bounds checks (what C02's "no access to released storage" needs) are kept
         cbmc_flags = ['--no-standard-checks', '--pointer-check', '--bounds-check'] + list(cbmc_flags)
         js.append(Job(name='%s_%s' % (name, tag), shim='btree', contract='c01_btree.c', harness='h_' + name, enforce=[enforce] if isinstance(enforce, str) else enforce,
                       shim_defines=sd, defines=['OP_' + op] + sd + list(extra), functions=[BTF + f for f in fns], unwind=max(ls, is_) + 3, timeout=timeout, tier=tier,
                       resolve_types={'LEAF_T': r'___LeafNode$', 'INNER_T': r'___InnerNode$', 'NODE_T': r'___node$', 'BT_T': r'^S_class_tlx__btree_(multi)?set$'},
-                      label=LABEL % ((is_ + 1) * ls, ls, is_), object_bits=10, mode='assert', backend='cadical', cbmc_flags=cbmc_flags, **kw))
-    J('ctor', 'ctor', 'c_ctor', [r'BTree\('], what='default construction: empty well-formed tree')
-    J('insert', 'insert', 'c_insert', [r'insert_start\(', r'insert_descend\(', r'split_leaf_node\(', r'find_lower<'],
-      what='insert(k) from any well-formed tree of depth <= 2 with a non-full root: invariants, view + {k}, returned position, node ledger')
-    J('erase_one', 'erase', 'c_erase', [r'erase_one\(', r'erase_one_descend\(', r'merge_leaves\(', r'shift_left_leaf\(', r'shift_right_leaf\('], ['KIND=0'],
-      what='erase_one(k) from any well-formed tree of depth <= 2: invariants (all six leaf-level underflow cases), view - {k}, node ledger')
-    J('erase_all', 'erase', 'c_erase', [r'erase\(unsigned char const&\)'], ['KIND=1'], cbmc_flags=['--unwind', str((is_ + 1) * ls + 2)],
-      what='erase(k): all occurrences removed, returns their number')
-    J('lookup', 'lookup', 'c_lookup', [r'exists\(', r'count\(', r'size\(\) const', r'empty\(\) const'], what='exists / count / size / empty equal the view')
+                      label=LABEL % ((is_ + 1) * ls, ls, is_), object_bits=10, mode='assert', backend='cadical', cbmc_flags=cbmc_flags, mem_gb=mem_gb, **kw))
+    # layer A: node primitives on arbitrary node contents (complete for the configured capacity; frame checked by dfcc)
+    def N(name, op, enforce, fns, extra=(), unwind=None, **kw):
+        js.append(Job(name='node_%s_%s' % (name, tag), shim='btree', contract='c02_btree_nodes.c', harness='h_node_' + name, enforce=[enforce],
+                      shim_defines=sd, defines=['OP_' + op] + sd + list(extra), functions=[BTF + f for f in fns], unwind=unwind or (max(ls, is_) + 4), timeout=900, tier=tier,
+                      resolve_types={'LEAF_T': r'___LeafNode$', 'INNER_T': r'___InnerNode$', 'NODE_T': r'___node$', 'BT_T': r'^S_class_tlx__btree_(multi)?set$'},
+                      label='complete for leaf/inner capacity %d/%d (all fill degrees, all keys)' % (ls, is_), **kw))
+    for w, nm, fn in [(0, 'find_lower_leaf', r'find_lower<.*LeafNode>'), (1, 'find_lower_inner', r'find_lower<.*InnerNode>'), (2, 'find_upper_leaf', r'find_upper<.*LeafNode>'), (3, 'find_upper_inner', r'find_upper<.*InnerNode>')]:
+        N(nm, 'find', 'c_find', [fn], ['WHICH=%d' % w], what='%s (%s search): first slot not before the key, on any sorted node' % (nm, 'binary' if binsearch else 'linear'))
+    N('shift_left_leaf', 'shift_leaf', 'c_shift_leaf', [r'shift_left_leaf\('], ['DIR=0'], what='shift_left_leaf: concatenation preserved, fill degrees, separator / returned last key, chain')
+    N('shift_right_leaf', 'shift_leaf', 'c_shift_leaf', [r'shift_right_leaf\('], ['DIR=1'], what='shift_right_leaf: concatenation preserved, fill degrees, separator, chain')
+    N('shift_left_inner', 'shift_inner', 'c_shift_inner', [r'shift_left_inner\('], ['DIR=0'], what='shift_left_inner: keys with the separator threaded through and children preserved')
+    N('shift_right_inner', 'shift_inner', 'c_shift_inner', [r'shift_right_inner\('], ['DIR=1'], what='shift_right_inner: keys with the separator threaded through and children preserved')
+    N('merge_leaves', 'merge_leaves', 'c_merge_leaves', [r'merge_leaves\('], what='merge_leaves: left gets everything, right emptied, leaf chain and tail relinked')
+    N('merge_inner', 'merge_inner', 'c_merge_inner', [r'merge_inner\('], what='merge_inner: left.keys ++ separator ++ right.keys, children concatenated')
+    N('split_leaf', 'split_leaf', 'c_split_leaf', [r'split_leaf_node\(', r'allocate_leaf\('], unwind=70, mode='assert', what='split_leaf_node: halves concatenate to the old content, both half full, chain relinked, one node allocated')
+    N('split_inner', 'split_inner', 'c_split_inner', [r'split_inner_node\(', r'allocate_inner\('], unwind=70, mode='assert', what='split_inner_node: halves around the returned separator, children preserved, no underflow after the pending insert')
+    J('ctor', 'ctor', 'c_ctor', [r'BTree\('], mem_gb=1, what='default construction: empty well-formed tree')
+    # mutating operations: one job per tree shape AND tuple of leaf fill degrees (all assigned): only then is the pointer
+    # structure concrete enough for the solver; keys stay symbolic.  The quick tier takes the tuples that reach each
+    # leaf-level rebalancing case once; the thorough tier enumerates every tuple for roots with 1 and 2 separators.
+    INS = [r'insert_start\(', r'insert_descend\(', r'split_leaf_node\(']
+    ERA = [r'erase_one\(', r'erase_one_descend\(', r'merge_leaves\(', r'shift_left_leaf\(', r'shift_right_leaf\(']
+    ERI = [r'erase\(tlx::BTree<.*>::iterator\)', r'erase_iter_descend\(']
+    def shape(fills):
+        return (['FIX_SHAPE=1'] if len(fills) == 1 else ['FIX_SHAPE=2', 'FIX_RUSE=%d' % (len(fills) - 1)]) + ['FIX_FILLS=%s' % fills]
+    J('insert_empty', 'insert', 'c_insert', INS, ['FIX_SHAPE=0'], mem_gb=1, unwindset=['ir_memset.0:70'], what='insert into the empty tree')
+    J('erase_one_empty', 'erase', 'c_erase', ERA, ['KIND=0', 'FIX_SHAPE=0'], mem_gb=1, what='erase_one on the empty tree')
+    J('clear_empty', 'clear', 'c_clear', [r'clear\(\)'], ['FIX_SHAPE=0'], mem_gb=1, what='clear() / destructor of the empty tree')
+    import itertools
+    q_ins = ['1', '4', '44', '24', '42', '234'] if not reduced else ['4']
+    q_era = ['1', '2', '22', '23', '32'] if not reduced else ['2']
+    q_eri = ['1', '22'] if not reduced else []
+    all12 = [''.join(t) for r in (1, 2) for t in itertools.product('234', repeat=r + 1)] + ['1', '2', '3', '4']
+    for fl in sorted(set(q_ins + all12)):
+        if len(fl) - 1 >= is_: continue
+        J('insert_f' + fl, 'insert', 'c_insert', INS, shape(fl), unwindset=['ir_memset.0:70'], tier=tier if fl in q_ins else 'thorough',
+          what='insert(k) into any tree with leaf fills %s: invariants, view + {k}, returned position, node ledger' % fl)
+    for fl in sorted(set(q_era + all12)):
+        J('erase_one_f' + fl, 'erase', 'c_erase', ERA, ['KIND=0'] + shape(fl), tier=tier if fl in q_era else 'thorough',
+          what='erase_one(k) from any tree with leaf fills %s: invariants (underflow handling), view - {k}, node ledger' % fl)
+    for fl in sorted(set(q_eri + all12)):
+        # erase_iter_descend re-descends once per candidate child inside its duplicate-scan loop, and every iteration holds a
+        # full copy of the leaf-level rebalancing code (4 GB of formula each).  The loop gets its own bound: 1 for sets
+        # (a valid iterator is always found in the first candidate), the number of children for multisets; the recursion
+        # gets bound 1 (depth <= 2).  Both bounds are proved by their unwinding assertions, not assumed.
+        nchild = len(fl)
+        if multi and nchild > 2: continue            # > 10 GB of formula
+        J('erase_iter_f' + fl, 'erase_iter', 'c_erase_iter', ERI, shape(fl), tier=tier if fl in q_eri else 'thorough',
+          resolve={'ERID': r'erase_iter_descend\('}, unwindset=['{ERID}:1', '{ERID}.0:%d' % (nchild if multi else 1)], mem_gb=(5 * nchild if multi else 5),
+          what='erase(iterator) at any position of any tree with leaf fills %s: exactly that element disappears, invariants, node ledger' % fl)
+    for fl in ('3', '23', '234'):
+        J('clear_f' + fl, 'clear', 'c_clear', [r'clear\(\)', r'clear_recursive\(', r'free_node\('], shape(fl), tier='thorough', what='clear() / destructor with leaf fills %s' % fl)
+    # count() walks over all duplicates: up to every key of the tree
+    J('lookup', 'lookup', 'c_lookup', [r'exists\(', r'count\(', r'size\(\) const', r'empty\(\) const'], resolve={'COUNT': r'^tlx::BTree<.*>::count\(unsigned char const&\) const'},
+      unwindset=['{COUNT}.0:%d' % ((is_ + 1) * ls + 2), '{COUNT}.1:%d' % ((is_ + 1) * ls + 2)], tier=('thorough' if reduced else tier), what='exists / count / size / empty equal the view')
     J('bounds', 'lookup', 'c_bound', [r'lower_bound\(unsigned char const&\) const', r'upper_bound\(unsigned char const&\) const', r'find\(unsigned char const&\) const', r'find_upper<'], ['BOUND'],
       what='lower_bound / upper_bound / find / begin / end return the position with the right rank in leaf-chain order')
     J('iterate', 'iterate', 'c_step', [r'iterator::operator\+\+\(\)', r'iterator::operator--\(\)'], what='iterator ++ / -- move one position along the leaf chain in both directions')
-    J('clear', 'clear', 'c_clear', [r'clear\(\)', r'clear_recursive\(', r'free_node\('], cbmc_flags=['--unwind', '8'], what='clear() / destructor: every node returned exactly once, tree empty and reusable')
     return js
 
 
 def jobs(tier):
     js = []
     js += cfg_jobs(0, 0, 0, 'quick')
-    js += cfg_jobs(1, 1, 0, 'quick')
+    js += cfg_jobs(1, 1, 0, 'quick', reduced=True)
     js += cfg_jobs(0, 1, 1, 'thorough')
     js += cfg_jobs(1, 0, 1, 'thorough')
     return js
